@@ -270,7 +270,7 @@ ADDENDA4 = {
     'C06': ' Fourth wave: xs:decimal operands whose integer part is beyond 2**53.',
     'C10': ' Fourth wave: for every type two valid literals padded before, after and inside with seven characters that are white space for Python but not for XML.',
     'C14': ' Fourth wave: the evaluating parser also runs with a default element namespace; a namespaces argument that names the xml prefix.',
-    'C19': ' Fourth wave: a fourth thread harness - two Selectors that both need the lazily built \\p{IsNoBlock} subset for the first time (scheduling points: the lines of UnicodeData.block, one preemption).',
+    'C19': ' Fourth wave: a fourth thread harness - two Selectors that both need the lazily built \\p{IsNoBlock} subset for the first time (scheduling points: the lines of UnicodeData.block, one preemption; thorough tier only).',
 }
 for _pid, _txt in ADDENDA4.items():
     CHECKS[_pid]['text'] += _txt
